@@ -54,11 +54,13 @@ class HookedIO(FileIO):
 
 
 class World:
-    def __init__(self, root, epoch=False):
+    def __init__(self, root, epoch=False, step=1.0):
         self.root = root
         # virtual clock of the files: normally recent times; with epoch=True version k has modification time k
         # (the first version exactly 0.0, as in epoch-normalised checkouts and archives)
         self.base = 0 if epoch else int(time.time()) - 100000
+        self.epoch = epoch
+        self.step = step
         self.ver = {}
         self.touch_of = {}
         os.makedirs(root, exist_ok=True)
@@ -83,7 +85,10 @@ class World:
         return os.path.join(self.root, 'cache_' + c)
 
     def mt(self, k):
-        return float(self.base + k)
+        if self.epoch:
+            return float(self.base + k)
+        # a few saves per second: modification times that differ only below the second must count as different
+        return float(self.base) + k * self.step
 
     def write(self, f, touch=False, revert=False):
         k = self.ver.get(f, -1) + 1
@@ -183,10 +188,10 @@ def gen_history_motif(r):
     return h
 
 
-def run_history(h, root, gc_trigger=None, epoch=False):
+def run_history(h, root, gc_trigger=None, epoch=False, step=1.0):
     """returns list of observations for parse steps: (step index, key, start version, end version, served content version or None, fresh_equal)"""
     shutil.rmtree(root, ignore_errors=True)
-    W = World(root, epoch)
+    W = World(root, epoch, step)
     for f in ('f0', 'f1', 'f2', 'f3'):
         W.write(f)
     pcache.parser_cache.clear()
@@ -319,7 +324,7 @@ def run(ctx, b, drv):
         for i in range(800 if ctx.tier == 'quick' else 16000):
             r = gens.rng(ctx.seed, 'cache-mixed', i)
             h = gen_history_motif(r) if r.random() < 0.25 else gen_history(r, mixed=True)
-            obs, W = run_history(h, root, gc_trigger=r.choice([None, 1, 2, 3, 4]), epoch=r.random() < 0.3)
+            obs, W = run_history(h, root, gc_trigger=r.choice([None, 1, 2, 3, 4]), epoch=r.random() < 0.3, step=r.choice([1.0, 1.0, 0.25, 0.125, 0.001]))
             ctx.count('cache-mixed-histories')
             ctx.nontrivial(('cache-mixed', tuple(h)))
             check_obs(ctx, h, obs, W, 'cache-mixed', i)
